@@ -253,9 +253,12 @@ class NestedExtensionArray(ExtensionArray):
         if isinstance(item, np.ndarray):
             if len(item) == 0:
                 return type(self)(pa.chunked_array([], type=self._chunked_array.type), validate=False)
-            pa_item = pa.array(item)
             if item.dtype.kind in "iu":
-                return type(self)(self._chunked_array.take(pa_item), validate=False)
+                if (item < 0).any():
+                    # Negative positions count from the end, pyarrow's take() does not support them
+                    item = np.where(item < 0, item + len(self), item)
+                return type(self)(self._chunked_array.take(pa.array(item)), validate=False)
+            pa_item = pa.array(item)
             if item.dtype.kind == "b":
                 return type(self)(self._chunked_array.filter(pa_item), validate=False)
             # It should be covered by check_array_indexer above
